@@ -714,7 +714,7 @@ def check_infapply(case):
         err = rec.guard(key, UU.apply, psi, opts)
         if err is None or err.eps > 1e-12:
             return rec  # (nothing is promised beyond the reported error: e.g. the QR variant cannot open new charge blocks)
-    if rec.ok(key + ':test_sanity', psi.test_sanity) and float(np.max(psi.norm_test())) > 1e-7:
+    if rec.ok(key + ':test_sanity', psi.test_sanity) and float(np.max(psi.norm_test())) > 1e-6:
         rec(key + ':not-canonical', 'norm_test() up to %.3g after apply' % np.max(psi.norm_test()))
     got = rec.guard(key + ':expectation_value', psi.expectation_value, zname)
     if got is not None and not close(got, ref, 1e-7):
